@@ -128,9 +128,30 @@ fn c02_new_sub(ctx: &mut Ctx) {
 fn c02_new_mul(ctx: &mut Ctx) {
     // choose exponents so that the product mostly lands in the claimed range
     let a = f64_c02(ctx);
-    let c = ctx.weighted(&[10, 2, 1, 1]);
+    let c = ctx.weighted(&[10, 2, 1, 1, 2]);
     let b = if a == 0.0 || c == 3 {
         f64_c02(ctx)
+    } else if c == 4 && a.is_normal() {
+        // product within a few ulps of a power of two 2^t - in particular the floor 2^-960 of the
+        // claimed range approached from inside (hi == 2^-960 exactly with a non-zero error term)
+        ctx.label("product:near-pow2");
+        let t = match ctx.below(4) {
+            0 | 1 => -960,
+            2 => [-959, 1022, 1021, 0, -1][ctx.below(5) as usize],
+            _ => ctx.range(-960, 1021),
+        };
+        let eb = t - exponent(a);
+        if (-1021..=1022).contains(&eb) {
+            let b0 = pow2_f64(t - exponent(a)) / (a.abs() * pow2_f64(-exponent(a))); // 2^t / |a|, exponent arithmetic kept in range
+            let b = step(b0, ctx.range(-3, 3));
+            if ctx.flag() {
+                -b
+            } else {
+                b
+            }
+        } else {
+            f64_c02(ctx)
+        }
     } else {
         let ea = exponent(a);
         // product exponent target in [-960, 1021]
@@ -171,7 +192,29 @@ fn c02_new_mul(ctx: &mut Ctx) {
     ctx.set_nontrivial(r.lo != 0.0);
 }
 
+/// the corners of new_div's closed operand range [2^-480, 2^480]: the top end point itself,
+/// the top binade and the lowest binade, in every combination
+fn c02_div_corner(ctx: &mut Ctx) -> f64 {
+    let v = match ctx.below(4) {
+        0 => pow2_f64(480),
+        1 => pow2_f64(-480),
+        2 => f64::from_bits(((-480i64 + 1023) as u64) << 52 | mantissa(ctx)),
+        _ => f64::from_bits(((479i64 + 1023) as u64) << 52 | mantissa(ctx)),
+    };
+    if ctx.flag() {
+        -v
+    } else {
+        v
+    }
+}
+
 fn c02_new_div(ctx: &mut Ctx) {
+    if ctx.chance(1, 12) {
+        ctx.label("range-corners");
+        let a = c02_div_corner(ctx);
+        let b = c02_div_corner(ctx);
+        return c02_new_div_eval(ctx, a, b);
+    }
     let a = f64_exp(ctx, -480, 479);
     let c = ctx.weighted(&[6, 1, 2, 2]);
     let b = match c {
@@ -194,6 +237,10 @@ fn c02_new_div(ctx: &mut Ctx) {
         }
     };
     let b = if b.is_finite() && b != 0.0 && exponent(b) >= -480 && exponent(b) <= 479 { b } else { f64_exp(ctx, -480, 479) };
+    c02_new_div_eval(ctx, a, b)
+}
+
+fn c02_new_div_eval(ctx: &mut Ctx, a: f64, b: f64) {
     ctx.key_f64(a);
     ctx.key_f64(b);
     note_f(ctx, "a", a);
@@ -475,11 +522,17 @@ fn c03_sum(ctx: &mut Ctx) {
     ctx.note("kind", || ["TwoFloat", "&TwoFloat", "f64", "&f64"][kind as usize].to_string());
     ctx.note("terms", || dds.iter().map(|d| d.show()).collect::<Vec<_>>().join(", "));
     let tfs: Vec<TwoFloat> = dds.iter().map(|d| d.tf()).collect();
+    let shape = ctx.below(8);
+    ctx.key_u64(shape);
+    ctx.note("iterator shape (0 = slice, 1.. = adaptors with other size hints)", || shape.to_string());
+    let tf_refs: Vec<&TwoFloat> = tfs.iter().collect();
+    let f_refs: Vec<&f64> = fs.iter().collect();
+    use crate::p_forms::shaped;
     let got = guard(|| match kind {
-        0 => tfs.iter().copied().sum::<TwoFloat>(),
-        1 => tfs.iter().sum::<TwoFloat>(),
-        2 => fs.iter().copied().sum::<TwoFloat>(),
-        _ => fs.iter().sum::<TwoFloat>(),
+        0 => shaped(&tfs, shape).sum::<TwoFloat>(),
+        1 => shaped(&tf_refs, shape).sum::<TwoFloat>(),
+        2 => shaped(&fs, shape).sum::<TwoFloat>(),
+        _ => shaped(&f_refs, shape).sum::<TwoFloat>(),
     });
     let got = match got {
         Ok(g) => Dd::of(g),
@@ -1170,6 +1223,17 @@ fn c19_op(ctx: &mut Ctx, form: RForm) {
                 ctx.ratio_log2(err.log2_abs() - bound.log2_abs());
             }
             check!(ctx, err <= bound, "{name}: result {} is 2^{:.1} x max(|a|,|b|) away from a - k*b for every admissible k (k0 ~{:e}, near-integer: {}); a = {}, b = {}", r.show(), err.log2_abs() - tol_scale.log2_abs(), k0.approx(), q.near, a.show(), b.show());
+            if form == RForm::RemEuclid {
+                // "rem_euclid returns a - div_euclid*b": the pair must be consistent with EACH OTHER,
+                // whichever admissible integer div_euclid chose
+                if let Some(d) = run_tf(ctx, "a.div_euclid(b)", || crate::inh::div_euclid(ta, tb)) {
+                    if d.valid() {
+                        let want = va.sub(&d.big().mul(&vb));
+                        let e2 = got.sub(&want).abs();
+                        check!(ctx, e2 <= bound, "rem_euclid({}, {}) = {} is not a - div_euclid*b with div_euclid = {} (off by 2^{:.1} x max(|a|,|b|))", a.show(), b.show(), r.show(), d.show(), e2.log2_abs() - tol_scale.log2_abs());
+                    }
+                }
+            }
         }
     }
     let qa = va.abs() > vb.abs();
